@@ -38,6 +38,12 @@ impl Tagged for Cell1 {
         self.0 = v
     }
 }
+impl Tagged for CellX {
+    fn get(&self) -> u64 {
+        u64::MAX
+    }
+    fn set(&mut self, _: u64) {}
+}
 unsafe impl<T: Tagged + 'static> CastFrom<T> for dyn Tagged {
     fn cast(t: *mut T) -> *mut Self {
         t
@@ -451,6 +457,8 @@ type Fail = (String, String, usize);
 pub fn run_history(h: &[Op8], max_guards: usize) -> Result<Option<Vec<u8>>, Fail> {
     let world = new_world();
     let mut meta: MetaTable<dyn Tagged> = MetaTable::new();
+    // a registered type that is absent from the world comes first: the iterators skip it
+    meta.register::<CellX>();
     meta.register::<Cell0>();
     meta.register::<Cell1>();
     let mut m = Model::new();
